@@ -1,6 +1,6 @@
 (* C08 - Uniquify makes every non-leaf instance unique without changing the design. Property theorems only. *)
-From Coq Require Import List.
-From SV Require Import Base.Base IR.State IR.NS IR.Ops Xform.Clone Xform.Xform Proofs.Inv1a Proofs.Inv2a Proofs.Fresh Proofs.RefK Proofs.NsInv Proofs.InvW Proofs.FieldT Proofs.XformInv Proofs.UniqInv Proofs.CloneFull Proofs.UniqFull.
+From Coq Require Import List ZArith String.
+From SV Require Import Base.Base IR.State IR.NS IR.Ops Xform.Clone Xform.Xform Proofs.Inv1a Proofs.Inv2a Proofs.Fresh Proofs.RefK Proofs.NsInv Proofs.InvW Proofs.FieldT Proofs.XformInv Proofs.UniqInv Proofs.CloneFull Proofs.UniqFull Proofs.NsSlot Proofs.CloneData Proofs.UniqElab Proofs.UniqNames Xform.Strs.
 Import ListNotations.
 
 (* "running uniquify again changes nothing": when every instance met by the breadth-first walk
@@ -94,12 +94,191 @@ Example C08_sample :
   top s 0 = Some 12 /\ iref s 12 = Some 9 /\ drefs s 9 = [12] /\ par s RChildren 12 = None.
 Proof. vm_compute. repeat split. Qed.
 
+(* ---- "the elaborated (flattened) design - leaf instances, their hierarchical names and connectivity -
+   is the same as before" ----
+   Proofs/UniqElab.v defines the identifier-free unfolding [unfold depth s d] of a definition: its ports
+   (user data = dictionary without the '.NS' entry, direction / downto / scalar / lower index, number of
+   pins), its cables (user data, attributes, and for each wire in order the list of its pins written
+   positionally: DIn k = k-th pin of the definition's own ports, DOut c k = k-th port pin of the definition
+   instantiated by the c-th child), its child instances in order (user data, hence names, and the
+   unfolding of the definition each instantiates, to the given depth), and for a leaf cell its name.
+   Equal unfoldings = same tree of named instances down to the named leaf cells, same wiring at every level. *)
+
+(* (a) Definition.clone: the copy unfolds exactly like the original, and no existing definition unfolds differently *)
+Theorem C08_clone_same_unfolding : forall ops d,
+  let s := run ops init in
+  d < next s -> kind_of s d = Some KDefinition -> snd (fst (clone_definition s d)) = None ->
+  forall depth,
+    (forall e, e < next s -> unfold depth (fst (fst (clone_definition s d))) e = unfold depth s e) /\
+    unfold depth (fst (fst (clone_definition s d))) (snd (clone_definition s d)) = unfold depth s d.
+Proof. intros ops d s Hd Hk Hc. apply (clone_unfold s d (reachable_uf ops) Hd Hk Hc). Qed.
+Print Assumptions C08_clone_same_unfolding.
+
+(* (b) one completed round of _make_instance_unique on an instance of a non-leaf definition (clone the
+   definition, rename the copy, add it to the library right after the original, re-point the instance):
+   every definition that existed before the round unfolds as before, to every depth - the container of
+   the re-pointed instance included, because the copy unfolds like the original and the re-keyed outer
+   pins sit at the positions of the old ones. From any state satisfying the invariants of the API. *)
+Theorem C08_round_same_elaboration : forall x inst d x',
+  UF (st x) -> iref (st x) inst = Some d -> inst < next (st x) -> is_leaf_def (st x) d = false ->
+  make_instance_unique x inst = (x', None) ->
+  forall depth e, e < next (st x) -> unfold depth (st x') e = unfold depth (st x) e.
+Proof. intros x inst d x' U Ei Hi Hl E. apply (round_unfold x inst d U Ei Hi Hl x' E). Qed.
+Print Assumptions C08_round_same_elaboration.
+
+(* (c) a completed uniquify, any fuel, from any state satisfying the invariants: every definition that
+   existed before - in particular the top definition - has the same unfolding afterwards, to every depth *)
+Theorem C08_same_elaboration_from : forall fuel x n x',
+  UF (st x) -> uniquify fuel x n = (x', None) ->
+  forall depth e, e < next (st x) -> unfold depth (st x') e = unfold depth (st x) e.
+Proof. exact uniquify_same_unfold. Qed.
+Print Assumptions C08_same_elaboration_from.
+
+Theorem C08_same_elaboration : forall ops u f fuel n x' t dtop,
+  let s := run ops init in
+  top s n = Some t -> iref s t = Some dtop -> uniquify fuel (mkX s u f) n = (x', None) ->
+  forall depth, unfold depth (st x') dtop = unfold depth s dtop.
+Proof.
+  intros ops u f fuel n x' t dtop s Ht Hr E depth.
+  apply (uniquify_same_unfold_top fuel (mkX s u f) n x' t dtop (reachable_uf ops) Ht Hr E).
+Qed.
+Print Assumptions C08_same_elaboration.
+
+(* ---- "new definitions get fresh, non-colliding names" ----
+   LT n0 s: the name table of every library l < n0 that has one is exactly the names of its definitions
+   (a consequence of the C10 invariant NsInv, hence true in every reachable state); PL n0 s: libraries
+   that hold definitions are older than n0. One completed round adds the copy d' = next s to the library
+   of the original; if the original is named nm the copy is named nm_sdn_unique_<counter> and the counter
+   advances; if the library has a name table, NO definition of the library carried that name at the moment
+   of the addition (the namespace manager was asked and its table is exact); the names of all other
+   definitions are unchanged; the table invariant holds again. *)
+Theorem C08_round_fresh_name : forall n0 x inst d x',
+  UF (st x) -> iref (st x) inst = Some d -> inst < next (st x) -> n0 <= next (st x) -> LT n0 (st x) -> PL n0 (st x) ->
+  make_instance_unique x inst = (x', None) ->
+  LT n0 (st x') /\ PL n0 (st x') /\
+  exists lib, par (st x) RDefs d = Some lib /\ par (st x') RDefs (next (st x)) = Some lib /\
+    (forall c, In c (kids (st x') RDefs lib) <-> c = next (st x) \/ In c (kids (st x) RDefs lib)) /\
+    (forall l, l <> lib -> kids (st x') RDefs l = kids (st x) RDefs l) /\
+    (forall l c, In c (kids (st x) RDefs l) -> get_str (st x') c str_NAME = get_str (st x) c str_NAME) /\
+    match get_str (st x) d str_NAME with
+    | Some nm => get_str (st x') (next (st x)) str_NAME = Some (nm ++ str_uniq ++ dec (uniq_ctr x)) /\
+                 uniq_ctr x' = S (uniq_ctr x) /\
+                 (nstab (st x) lib <> None -> forall c, In c (kids (st x) RDefs lib) ->
+                    get_str (st x) c str_NAME <> Some (nm ++ str_uniq ++ dec (uniq_ctr x)))
+    | None => get_str (st x') (next (st x)) str_NAME = None /\ uniq_ctr x' = uniq_ctr x
+    end.
+Proof. intros n0 x inst d x' U Ei Hi Hn HL HP E. apply (round_names n0 x inst d U Ei Hi Hn HL HP x' E). Qed.
+Print Assumptions C08_round_fresh_name.
+
+(* what happens on a clash: when the library has a name table and already holds a definition named
+   nm_sdn_unique_<counter>, the round does NOT complete - add_definition raises (ValueError) after the
+   clone has been made and renamed; C08_name_clash_sample shows the outcome and the debris *)
+Theorem C08_name_clash_raises : forall n0 x inst d lib nm c,
+  UF (st x) -> iref (st x) inst = Some d -> inst < next (st x) -> n0 <= next (st x) -> LT n0 (st x) -> PL n0 (st x) ->
+  par (st x) RDefs d = Some lib -> get_str (st x) d str_NAME = Some nm -> nstab (st x) lib <> None ->
+  In c (kids (st x) RDefs lib) -> get_str (st x) c str_NAME = Some (nm ++ str_uniq ++ dec (uniq_ctr x)) ->
+  snd (make_instance_unique x inst) <> None.
+Proof. exact round_clash. Qed.
+Print Assumptions C08_name_clash_raises.
+
+(* a COMPLETED uniquify never produced a duplicate: in every state reachable by editing calls, with any
+   counter values and fuel, after a completed run no library (that has a name table) holds two definitions
+   with one name; and every definition the run added (identifier >= next s) that has a name is named
+   <something>_sdn_unique_<k> with k between the counter before and after the run *)
+Theorem C08_fresh_names : forall ops u f fuel n x',
+  let s := run ops init in
+  uniquify fuel (mkX s u f) n = (x', None) ->
+  (forall l t c1 c2 v, l < next s -> nstab (st x') l = Some t ->
+     In c1 (kids (st x') RDefs l) -> In c2 (kids (st x') RDefs l) ->
+     get_str (st x') c1 str_NAME = Some v -> get_str (st x') c2 str_NAME = Some v -> c1 = c2) /\
+  u <= uniq_ctr x' /\
+  (forall l c v, In c (kids (st x') RDefs l) -> next s <= c -> get_str (st x') c str_NAME = Some v ->
+     exists nm k, v = nm ++ str_uniq ++ dec k /\ u <= k /\ k < uniq_ctr x').
+Proof.
+  intros ops u f fuel n x' s E.
+  assert (HL : LT (next s) s) by (apply lt_of_nsinv; apply (NsInv.reachable_nsinv ops)).
+  destruct (uniquify_names fuel (mkX s u f) n x' (reachable_uf ops) HL E) as [L [C A]]. cbn [st uniq_ctr] in *.
+  split; [|split; [exact C|exact A]].
+  intros l t c1 c2 v Hl Ht H1 H2 E1 E2. apply (lt_unique _ _ l t c1 c2 v L Hl Ht H1 H2 E1 E2).
+Qed.
+Print Assumptions C08_fresh_names.
+
+(* non-vacuity of (a)-(c) and of the name theorems: library "work" with the leaf cell INV (port A), the
+   cell mid (port P, cable n joining P and the pin A of its child u : INV) and the cell top with two
+   instances m1, m2 of mid joined by the cable t; uniquify completes, adds mid_sdn_unique_0 right after
+   mid, the counter goes from 0 to 1, and the unfolding of top to depth 4 (down to the leaf INV) is the same *)
+Definition c08_design : list op :=
+  [ ONew KNetlist None []; OCreate RLibs 0 (Some (s2l "work"%string)) [] 0 None;
+    OCreate RDefs 1 (Some (s2l "INV"%string)) [] 0 None; OCreate RPorts 2 (Some (s2l "A"%string)) [] 1 None;
+    OCreate RDefs 1 (Some (s2l "mid"%string)) [] 0 None; OCreate RChildren 5 (Some (s2l "u"%string)) [] 0 (Some 2);
+    OCreate RCables 5 (Some (s2l "n"%string)) [] 1 None; OConnect 8 (POut 6 4) None;
+    OCreate RPorts 5 (Some (s2l "P"%string)) [] 1 None; OConnect 8 (PIn 10) None;
+    OCreate RDefs 1 (Some (s2l "top"%string)) [] 0 None; OCreate RChildren 11 (Some (s2l "m1"%string)) [] 0 (Some 5);
+    OCreate RChildren 11 (Some (s2l "m2"%string)) [] 0 (Some 5);
+    OCreate RCables 11 (Some (s2l "t"%string)) [] 1 None; OConnect 15 (POut 12 10) None; OConnect 15 (POut 13 10) None;
+    OSetTop 0 (TopDef 11) ].
+
+Example C08_elaboration_sample :
+  let s := run c08_design init in
+  let r := uniquify 20 (mkX s 0 0) 0 in
+  let s' := st (fst r) in
+  snd r = None /\ next s = 17 /\ top s 0 = Some 16 /\ iref s 16 = Some 11 /\
+  kids s' RDefs 1 = [2; 5; 17; 11] /\ iref s' 12 = Some 17 /\ iref s' 13 = Some 5 /\
+  map (fun c => get_str s' c str_NAME) (kids s' RDefs 1) =
+    [Some (s2l "INV"%string); Some (s2l "mid"%string); Some (s2l "mid_sdn_unique_0"%string); Some (s2l "top"%string)] /\
+  uniq_ctr (fst r) = 1 /\
+  unfold 4 s' 11 = unfold 4 s 11 /\ unfold 3 s' 17 = unfold 3 s 5 /\
+  (* the wire of top joins the first port pin of its first and of its second child; the wire of mid joins
+     the first port pin of its first child and its own first pin *)
+  match unfold 2 s 11 with
+  | TDef None [] [(_, _, [[DOut 0 0; DOut 1 0]])] [(_, Some (TDef None [_] [(_, _, [[DOut 0 0; DIn 0]])] [_])); _] => True
+  | _ => False
+  end /\
+  is_leaf_def s 5 = false /\ leaf_name s 2 = Some (s2l "INV"%string).
+Proof. vm_compute. repeat split. Qed.
+
+(* a clone of "mid" alone: the copy (17) unfolds like mid *)
+Example C08_clone_unfold_sample :
+  let s := run c08_design init in
+  let r := clone_definition s 5 in
+  5 < next s /\ kind_of s 5 = Some KDefinition /\ snd (fst r) = None /\ snd r = 17 /\
+  unfold 3 (fst (fst r)) 17 = unfold 3 s 5 /\ unfold 3 s 5 <> TCut.
+Proof. vm_compute. repeat split; try discriminate. repeat constructor. Qed.
+
+(* the clash: the same design with a definition already named mid_sdn_unique_0 in the library and the
+   counter at 0 (a fresh process): uniquify ends with ValueError; the copy of mid (18) has been made, is
+   in no library, and its child (23) is registered with the leaf cell INV next to the original child (6);
+   m1 still instantiates mid. The same happens in the implementation (reproducer in the report). *)
+Example C08_name_clash_sample :
+  let s := run (c08_design ++ [OCreate RDefs 1 (Some (s2l "mid_sdn_unique_0"%string)) [] 0 None]) init in
+  let r := uniquify 20 (mkX s 0 0) 0 in
+  let s' := st (fst r) in
+  next s = 18 /\ snd r = Some (XE XValue) /\ next s' = 24 /\ kids s' RDefs 1 = [2; 5; 11; 17] /\
+  par s' RDefs 18 = None /\ drefs s' 2 = [6; 23] /\ iref s' 12 = Some 5 /\
+  get_str s' 18 str_NAME = Some (s2l "mid_sdn_unique_0"%string).
+Proof. vm_compute. repeat split. Qed.
+
+(* so "uniquify gives new definitions fresh names" does not hold unconditionally: the module counter
+   restarts at 0 in every process and the suffix is never checked against the library before the clone is
+   made; a netlist that already contains <name>_sdn_unique_<k> (for instance one written after an earlier
+   uniquify) makes a later run raise mid-way. Stated and refuted from the computed witness. *)
+Definition C08_never_clashes : Prop := forall ops u f fuel n,
+  snd (uniquify fuel (mkX (run ops init) u f) n) <> Some (XE XValue).
+Theorem C08_never_clashes_refuted : ~ C08_never_clashes.
+Proof.
+  intro H.
+  apply (H (c08_design ++ [OCreate RDefs 1 (Some (s2l "mid_sdn_unique_0"%string)) [] 0 None]) 0 0 20 0).
+  vm_compute. reflexivity.
+Qed.
+Print Assumptions C08_never_clashes_refuted.
+
 (* The uniqueness clause without the two side conditions of C08_makes_unique (top definition
    referenced by the top instance only; top instance parentless) is kept here as first written; it is
    proved above under those conditions, which hold for every netlist whose top was set from a
-   definition. The remaining clauses (same elaborated design, fresh names) are checked on every run by
-   the correspondence of the uniquify model with the implementation and by the union-find elaboration
-   oracle. *)
+   definition. The clauses "same elaborated design" and "fresh names" are proved above
+   (C08_same_elaboration, C08_fresh_names, with the clash outcome C08_name_clash_raises); they are also
+   checked on every run by the correspondence of the uniquify model with the implementation and by the
+   union-find elaboration oracle. *)
 Definition C08_full : Prop := forall fuel x n x',
   uniquify fuel x n = (x', None) ->
   forall t d, top (st x') n = Some t -> iref (st x') t = Some d ->
